@@ -92,18 +92,23 @@ func runValDom(c *core.Ctx) {
 			continue
 		}
 		c.CountFuncs(1)
-		fr := an.ConstFrame("len(" + paramPath(v, 0) + ")")
+		// the length Event.Valid accepts for the field — tested in Valid itself or in the
+		// predicate helpers it delegates to
+		fr := an.ConstFrame("len(recv." + fl.field + ")")
 		var opq []an.Cond
-		t, _, n, ok := fr.FuncBoolMeaning(v, 0, nil, &opq)
+		t, _, n, ok := fr.FuncBoolMeaning(evValid, 0, nil, &opq)
 		c.CountPaths(n)
 		if !ok {
-			c.Unknown(nil, fname(c, v), "domain(len)", P.Pos(v.Pos()), "path enumeration gave up")
+			c.Unknown(nil, fname(c, evValid), "domain(len "+fl.field+")", P.Pos(evValid.Pos()), "path enumeration gave up")
 		} else {
-			c.Check(t.Equal(an.Range(fl.n, fl.n)), nil, fname(c, v), "domain(len "+fl.field+")", P.Pos(v.Pos()),
+			c.Check(t.Equal(an.Range(fl.n, fl.n)), nil, fname(c, evValid), "domain(len "+fl.field+")", P.Pos(v.Pos()),
 				fmt.Sprintf("accepts len ∈ %s", t), fmt.Sprintf("accepts len ∈ %s, want [%d,%d]", t, fl.n, fl.n))
 		}
 		// charset: callee applied to the same parameter
-		_, hx := validatorCall(c, v, paramPath(v, 0))
+		hx := v
+		if !rangesOverParam(hx) {
+			_, hx = validatorCall(c, v, paramPath(v, 0))
+		}
 		// the character test may sit one or two helpers further down (validX → validHexOfLen → validHexString)
 		for depth := 0; hx != nil && depth < 3 && !rangesOverParam(hx); depth++ {
 			_, next := validatorCall(c, hx, paramPath(hx, 0))
@@ -793,7 +798,31 @@ func runValSlice(c *core.Ctx) {
 	}
 	// Event: tags non-nil and every tag validated
 	if call := allFuncCall(c, evValid, "recv.Tags"); call == nil {
-		c.Bad(nil, fname(c, evValid), "field[Tags]", P.Pos(evValid.Pos()), "Event.Valid does not apply a per-tag validator to all Tags")
+		// written out as a loop over the tags: an iteration completes only for a tag with
+		// at least one element, and leaving the loop early means "invalid"
+		hasLoop := false
+		an.Instrs(evValid, func(in ssa.Instruction) {
+			if v, ok := in.(ssa.Value); ok && an.PathOf(v) == "len(recv.Tags[*])" && an.InLoop(in.Block()) {
+				hasLoop = true
+			}
+		})
+		if !hasLoop {
+			c.Bad(nil, fname(c, evValid), "field[Tags]", P.Pos(evValid.Pos()), "Event.Valid does not apply a per-tag validator to all Tags")
+		} else {
+			early := false
+			if tps, ok := an.ResultPaths(evValid, 0, true); ok {
+				for _, tp := range tps {
+					last := tp.Path[len(tp.Path)-1]
+					if an.InLoop(last) {
+						early = true
+					}
+				}
+			} else {
+				early = true
+			}
+			c.Check(!early, nil, fname(c, evValid), "field[Tags]", P.Pos(evValid.Pos()), "every tag is examined; a failing tag ⇒ Valid() false", "the loop over the tags can answer 'valid' before all tags were examined")
+			checkLoopAccept(c, evValid, "len(recv.Tags[*])", an.Range(1, an.PosInf), "len tag")
+		}
 	} else {
 		ok, why := impliesFalse(c, evValid, call)
 		c.Check(ok, nil, fname(c, evValid), "field[Tags]", P.Pos(call.Pos()), "all-tags validator false ⇒ Valid() false", why)
@@ -878,6 +907,21 @@ func runValSlice(c *core.Ctx) {
 						}
 					}
 				}
+			}
+		}
+		if !kindOK {
+			// the kind part checked in place: its accepted range must be the event kind's
+			subj := ""
+			an.Instrs(av, func(in ssa.Instruction) {
+				if v, ok := in.(ssa.Value); ok {
+					if p := an.PathOf(v); strings.HasPrefix(p, "call:strconv.ParseInt(") && strings.HasSuffix(p, "#0") {
+						subj = p
+					}
+				}
+			})
+			if subj != "" {
+				t, _, _, ok := an.ConstFrame(subj).FuncBoolMeaning(av, 0, nil, nil)
+				kindOK = ok && t.Equal(an.Range(0, 65535))
 			}
 		}
 		c.Check(kindOK && pkOK, nil, fname(c, av), "tag[a]", P.Pos(av.Pos()), "address parts validated by the kind and pubkey validators", fmt.Sprintf("address validator: kind part validated=%v, pubkey part validated=%v", kindOK, pkOK))
